@@ -313,6 +313,12 @@ def attach_world(world: World):
     except Exception:
         pass
 
+
+
+def register_all_new(world: World):
+    """Passive mode: every histogram constructed anywhere joins the population."""
+    from physt.histogram_base import HistogramBase
+
     class Reg(Handler):
         name = "world.register"
 
